@@ -33,6 +33,7 @@ class TimeOut(BaseException):
 
 
 FIRED = [0]
+SURD = [0]
 
 
 def _alarm(*a):
@@ -79,7 +80,63 @@ def sympy_of(x):
 def ev(e, env, var, pt):
     env2 = dict(env)
     env2[var] = pt
-    return evaluate(sympy_of(e), env2)
+    try:
+        return evaluate(sympy_of(e), env2)
+    except NotExact as ex:
+        if 'sqrt' in str(ex) or 'power' in str(ex):
+            return ev_surd(sympy_of(e), env2)
+        raise
+
+
+def gsym(g):
+    return sym.Rational(g.re.numerator, g.re.denominator) + sym.I * sym.Rational(g.im.numerator, g.im.denominator)
+
+
+def ev_surd(e, env2):
+    """fallback for results containing square roots that do not lie in Q(i)
+    (irrational poles): substitute, map exp / undefined functions exactly as
+    ratfun_exact does, let sympy reduce the radical expression EXACTLY, and
+    accept only a Gaussian-rational outcome; the outcome is cross-checked at 40
+    digits so that a wrong symbolic reduction can never produce a verdict."""
+    from sympy.core.function import AppliedUndef
+    from ratfun_exact import E3, undef_value
+    SURD[0] += 1
+    m = {}
+    for sy in e.free_symbols:
+        if sy.name not in env2:
+            raise NotExact('free symbol %s' % sy.name)
+        m[sy] = gsym(env2[sy.name])
+    if 'pi' in env2:
+        m[sym.pi] = gsym(env2['pi'])
+    e2 = e.xreplace(m)
+
+    def expo(x):
+        a = sym.expand_complex(x.args[0])
+        re_, im_ = a.as_real_imag()
+        re_, im_ = sym.nsimplify(re_), sym.nsimplify(im_)
+        if not (re_.is_Integer and im_.is_Integer):
+            raise NotExact('exp of non-integral argument')
+        return sym.Rational(3) ** int(re_) * sym.Rational(5) ** int(im_)
+    e2 = e2.replace(lambda x: isinstance(x, sym.exp), expo)
+
+    def und(x):
+        args = [evaluate(a, {}) for a in x.args]
+        return gsym(undef_value(x.func.__name__, args))
+    e2 = e2.replace(lambda x: isinstance(x, AppliedUndef), und)
+    if e2.free_symbols or e2.has(sym.exp) or e2.atoms(AppliedUndef):
+        raise NotExact('surd fallback: unreduced')
+    v = sym.radsimp(sym.expand_complex(e2))
+    re_, im_ = v.as_real_imag()
+    re_, im_ = sym.simplify(re_), sym.simplify(im_)
+    if not (re_.is_Rational and im_.is_Rational):
+        raise NotExact('surd fallback: not in Q(i)')
+    # numeric cross-check of the symbolic reduction (can only withdraw a value)
+    num = complex(sym.N(e2, 40))
+    got = complex(float(re_), float(im_))
+    if abs(num - got) > 1e-9 * max(1.0, abs(num)):
+        raise NotExact('surd fallback: numeric cross-check failed')
+    from fractions import Fraction
+    return G(Fraction(int(re_.p), int(re_.q)), Fraction(int(im_.p), int(im_.q)))
 
 
 def evs(e, env, var, pts):
@@ -100,6 +157,7 @@ def rootdict(d, env):
 def run_case(c):
     import time
     t_start = time.time()
+    SURD[0] = 0
     out = {'m': {}}
     env = {k: G.des(v) for k, v in c['env'].items()}
     H, err = guarded(lambda: lexpr(c['expr']))
@@ -232,6 +290,7 @@ def run_case(c):
             continue
         res, err = guarded(one)
         out['m'][key] = res if err is None else {'error': err}
+        out['surd_evals'] = SURD[0]
         if err and err.startswith('timeout'):
             # caches of H / its Ratfun may hold the outcome of an interrupted computation
             tainted = True
